@@ -46,7 +46,7 @@ CLAIMED = {
    technique="Lean 4 proof (fold closed forms) + kernel-checked instantiation on tabulated live data + correspondence",
    design="5/C08"),
  'C09': dict(
-   text="Lean model of constructor resolution, connect plan, status evaluation, mismatch message and the plain status reactor; theorems for ALL environments, allowed sets, defaults and replies: connect v only for an allowed reported v or the default on {no version, no protocol key, closed}; disallowed n gives a mismatch naming n with the supported flag correct; empty object invalid; single allowed version => no query; unsupported/unknown refused at construction; handshake fields; status handler exactly once, ping iff requested, latency >= 0 on a monotone clock, one disconnect, exit callback once. Correspondence on the sequential simnet against an independent stand-in server (constructor inputs, negotiation scenarios over the live version tables, four status handler modes).",
+   text="Lean model of constructor resolution, connect plan, status evaluation, mismatch message and the plain status reactor; theorems for ALL environments, allowed sets, defaults and replies: connect v only for an allowed reported v or the default on {no version, no protocol key, closed}; disallowed n gives a mismatch naming n with the supported flag correct; empty object invalid; single allowed version => no query; unsupported/unknown refused at construction; handshake fields; status handler exactly once, ping iff requested, latency >= 0 on a monotone clock, one disconnect, exit callback once. Correspondence on the sequential simnet against an independent stand-in server (constructor inputs, negotiation scenarios over the live version tables, four status handler modes). Byte level (Props/C09Wire): the client's first frames (handshake, request/ping or login start) as bytes, an independently written reference server recovers protocol/host/port/next state/name under any segmentation, the encoding is injective, the protocol number in the bytes is the negotiated one, ping/pong and status-response bytes round-trip; driver hswire.first/hswire.parse compared with the raw bytes of every connection opened in the scenarios.",
    note="Non-integer protocol values in the reply are outside the property's quantifier (the model returns what Python does for integers only). Clock values are injected; JSON parsing is CPython's. simnet's socket semantics are part of the trusted base.",
    technique="Lean 4 proof (decision logic, case analysis) + correspondence on an in-process sequential network",
    design="5/C09"),
@@ -56,7 +56,7 @@ CLAIMED = {
    technique="Lean 4 proof (invariants over arbitrary step lists) + correspondence on sequential simnet with an independent crypto peer",
    design="5/C10"),
  'C11': dict(
-   text="Lean model of PlayingReactor.react and the NetworkingThread._run batching loop with the 300/50 caps as parameters and the shared packet counter; theorems for ALL inboxes and ALL caps (capR >= 1, proved sharp): termination, keep-alive replies = ids before the first disconnect in order exactly once, teleport confirm / position echo per version, spawned iff a position packet was processed, wire order, unknown packets delivered without reply and removable without effect, clean server disconnect (closed, exit callback once, no error, later events ignored), independence from the caps. Correspondence on the sequential simnet over all release protocols (independent id/layout table) plus rotating snapshots, histories up to 400 packets, compression on/off, peer closing or not.",
+   text="Lean model of PlayingReactor.react and the NetworkingThread._run batching loop with the 300/50 caps as parameters and the shared packet counter; theorems for ALL inboxes and ALL caps (capR >= 1, proved sharp): termination, keep-alive replies = ids before the first disconnect in order exactly once, teleport confirm / position echo per version, spawned iff a position packet was processed, wire order, unknown packets delivered without reply and removable without effect, clean server disconnect (closed, exit callback once, no error, later events ignored), independence from the caps. Correspondence on the sequential simnet over all release protocols (independent id/layout table) plus rotating snapshots, histories up to 400 packets, compression on/off, peer closing or not. Byte level (Props/C11Wire): for all packet lists, wire profiles, thresholds, lawful zlib, ciphers, segmentations and caps the client decodes the server stream to the inbox, writes exactly the frames of the due replies, an independent reader recovers them, keep-alive / teleport / position echoes carry the request's bytes; driver playwire.run compared byte for byte with the stand-in server's stream and the raw bytes the real client sent.",
    note="When the peer has already closed while more than one read batch is still unread, the client's own writes fail (EPIPE) before it reads the disconnect packet; that realistic limitation is outside the property's clause and the harness keeps closed-peer histories within the first batch. With the peer closed only 'the wire is a prefix' holds (also in the model).",
    technique="Lean 4 proof (loop with measure, cap-independence) + correspondence on sequential simnet",
    design="5/C11"),
